@@ -549,32 +549,39 @@ Fixpoint remove_ranges (data : bytes) (rs : list (N * N)) : result bytes :=
   end.
 Definition ranges_total (rs : list (N * N)) : N := fold_right (fun r t => (snd r - fst r) + t) 0 rs.
 
-(* scan of InsertOption82 / StripOption82: (endIdx or None, every complete option 82, last found first) *)
+(* how the option walk of InsertOption82 / StripOption82 ends *)
+Inductive scan_end :=
+| EEnd (i : N)      (* End option at offset i *)
+| ECut (i : N)      (* cut-off trailing option starting at offset i (length byte missing or value past the end) *)
+| EAll.             (* ran off the end of the packet *)
+(* scan of InsertOption82 / StripOption82: (how it ended, every complete option 82, last found first) *)
 Fixpoint o82_scan (fuel : nat) (i : N) (pkt : bytes) (ex : list (N * N))
-  : result (option N * list (N * N)) :=
+  : result (scan_end * list (N * N)) :=
   match fuel with
   | O => OutOfFuel
   | S f =>
     if i <? lenN pkt then
       c <- idx i pkt;;
       if c =? 0 then o82_scan f (i + 1) pkt ex else
-      if c =? 255 then Ok (Some i, ex) else
-      if lenN pkt <=? i + 1 then Ok (None, ex) else
+      if c =? 255 then Ok (EEnd i, ex) else
+      if lenN pkt <=? i + 1 then Ok (ECut i, ex) else
       ol <- idx (i + 1) pkt;;
-      if lenN pkt <? i + 2 + ol then Ok (None, ex) else
+      if lenN pkt <? i + 2 + ol then Ok (ECut i, ex) else
       o82_scan f (i + 2 + ol) pkt (if c =? 82 then (i, i + 2 + ol) :: ex else ex)
-    else Ok (None, ex)
+    else Ok (EAll, ex)
   end.
-(* policy: 1 keep, 2 drop, anything else replace *)
+(* policy: 1 keep, 2 drop, anything else replace.  Since 703d203 a cut-off trailing option is dropped first (pkt = pkt[:i]):
+   otherwise its length byte would swallow the option 82 appended after it. *)
 Definition insert_option82 (pkt opt82 : bytes) (policy : N) : result bytes :=
   if lenN pkt <? 240 then Ok pkt else
   sc <- o82_scan (S (length pkt)) 240 pkt [];;
-  let endidx := match fst sc with Some e => e | None => lenN pkt end in
+  pkt1 <- (match fst sc with ECut i => sl 0 i pkt | _ => Ok pkt end);;
+  let endidx := match fst sc with EEnd e => e | _ => lenN pkt1 end in
   let ex := snd sc in
-  if (policy =? 1) && negb (match ex with [] => true | _ => false end) then Ok pkt else
-  if policy =? 2 then remove_ranges pkt ex else
+  if (policy =? 1) && negb (match ex with [] => true | _ => false end) then Ok pkt1 else
+  if policy =? 2 then remove_ranges pkt1 ex else
   let endidx' := endidx - ranges_total ex in
-  pkt' <- remove_ranges pkt ex;;
+  pkt' <- remove_ranges pkt1 ex;;
   a <- sl 0 endidx' pkt';; b <- slf endidx' pkt';; Ok (a ++ opt82 ++ b).
 
 (* StripOption82 (the same walk; the End offset is not used) *)
